@@ -67,7 +67,7 @@ def act (imm : Imm) (prog : List MStep) (m : Mem) (pc : Nat) (ρ : Nat → Nat) 
   | some .lock => .lock (pc + 1)
   | some .unlock => .unlock (pc + 1)
   | some (.realloc r p _) => .cont m (pc + 1) (setReg ρ r (if imm.reallocFails then 0 else p.eval ρ + 1))
-  | some (.memset _ _ _) => .cont m (pc + 1) ρ
+  | some (.memset _ _ _ _) => .cont m (pc + 1) ρ          -- contents: Model/GrowContent.lean
   | some .abort => .abort
 
 /-! ### sequential semantics (one thread alone; lock/unlock are no-ops) -/
@@ -267,7 +267,7 @@ def repairedSteps : List MStep := [
   /- 20 -/ .brUnless (.eq (.reg 12) (.lit 0)) 2,
   /- 21 -/ .set 8 (.lit 1),
   /- 22 -/ .brUnless (.lit 0) 2,
-  /- 23 -/ .memset (.add (.reg 12) (.reg 9)) (.lit 0) (.reg 10),
+  /- 23 -/ .memset 12 (.reg 9) (.lit 0) (.reg 10),
   /- 24 -/ .write .data (.reg 12),
   /- 25 -/ .brUnless (.lnot (.reg 8)) 3,
   /- 26 -/ .write .pages (.reg 5),
